@@ -105,6 +105,12 @@ def update_param_state_dict_object(
 ) -> None:
     for k, v in current_param_state_dict.items():
         if k not in param_state_dict_to_load:
+            # NOTE: flatten() drops (nested) dictionaries that hold no leaf at all, e.g., the state of a block without
+            # any Kronecker factor. Such an entry has nothing to load, hence its absence is not an error.
+            if isinstance(v, (dict, OptimizerModule)) and not flatten(
+                extract_state_dict_content({k: v})
+            ):
+                continue
             if enable_missing_key_check:
                 raise KeyError(f"Key {k} not found in state dict to load.")
             else:
@@ -118,6 +124,23 @@ def update_param_state_dict_object(
                 enable_missing_key_check,
             )
         elif hasattr(v, "load_state_dict") and callable(v.load_state_dict):
+            # NOTE: OptimizerModule.load_state_dict() silently skips entries that are missing from the state to load,
+            # so the missing key check has to be performed here.
+            if isinstance(v, OptimizerModule) and isinstance(
+                param_state_dict_to_load[k], dict
+            ):
+                missing_keys = flatten(v.state_dict()).keys() - flatten(
+                    param_state_dict_to_load[k]
+                ).keys()
+                if missing_keys:
+                    if enable_missing_key_check:
+                        raise KeyError(
+                            f"Keys {sorted(missing_keys)} of {k} not found in state dict to load."
+                        )
+                    else:
+                        logger.warning(
+                            f"Keys {sorted(missing_keys)} of {k} not found in state dict to load."
+                        )
             v.load_state_dict(param_state_dict_to_load[k])
         elif isinstance(v, torch.Tensor):
             v.detach().copy_(param_state_dict_to_load[k])
